@@ -29,6 +29,11 @@ pub fn validate(server_name: &str) -> Result<(), Error> {
             return Err(Error::InvalidServerName);
         }
 
+        // The hostname must not be empty.
+        if end_of_host == 0 {
+            return Err(Error::InvalidServerName);
+        }
+
         end_of_host
     };
 
@@ -37,11 +42,21 @@ pub fn validate(server_name: &str) -> Result<(), Error> {
             // hostname is followed by something other than ":port"
             server_name.as_bytes()[end_of_host] != b':'
             // the remaining characters after ':' are not a valid port
-            || server_name[end_of_host + 1..].parse::<u16>().is_err()
+            || !is_valid_port(&server_name[end_of_host + 1..])
         )
     {
         Err(Error::InvalidServerName)
     } else {
         Ok(())
     }
+}
+
+/// Whether the given string is a valid port: 1 to 5 ASCII digits that fit in a `u16`.
+///
+/// Checking the digits explicitly is necessary because `u16::from_str` also accepts a leading `+`
+/// and any number of leading zeros.
+fn is_valid_port(port: &str) -> bool {
+    (1..=5).contains(&port.len())
+        && port.bytes().all(|b| b.is_ascii_digit())
+        && port.parse::<u16>().is_ok()
 }
